@@ -54,6 +54,10 @@ type SpecFn struct {
 	// listed for X in the spec's "groups"). A function that cannot be translated is left out of its file (and so are its
 	// callers): only the proofs that mention it stop compiling, the other properties are not affected.
 	Group string `json:"group,omitempty"`
+	// Captures (".SetBalance:1"): argument 1 of every call of a method SetBalance is an OUTPUT of the translation
+	// (`option` of its value: None on the paths that do not reach the call), appended to every returned tuple; the
+	// call's own result is an oracle input as usual. A function without results can be translated for its captures.
+	Captures []string `json:"captures,omitempty"`
 	// Fragment: translate ONE statement of the function instead of its body: the statement whose source text starts
 	// with this string. The variables it uses that are declared before it are its parameters (scalars) or roots of
 	// inputs (anything else); falling off its end returns the values of Fallthrough (Coq terms, one per result).
@@ -1104,6 +1108,29 @@ func (c *ctx) call(x *ast.CallExpr, k string) gexp {
 		}
 		return gexp{wrap(to, a.e), a.g}
 	}
+	if sel, ok := x.Fun.(*ast.SelectorExpr); ok {
+		for _, cp := range c.spec.Captures {
+			parts := strings.SplitN(cp, ":", 2)
+			if parts[0] == "."+sel.Sel.Name && len(parts) == 2 {
+				idx := 0
+				fmt.Sscanf(parts[1], "%d", &idx)
+				if idx >= len(x.Args) {
+					bad(x.Pos(), "capture %s: no such argument", cp)
+				}
+				ae := c.expr(x.Args[idx])
+				name := c.oracleName(x)
+				if name == "" {
+					bad(x.Pos(), "captured call %s must also be listed as an oracle", cp)
+				}
+				rs := c.oracleResults(x, name)
+				if len(rs) != 1 || rs[0] == "" {
+					bad(x.Pos(), "captured call %s: single scalar result expected", cp)
+				}
+				eff := "eff_" + sel.Sel.Name + "_" + parts[1]
+				return gexp{rs[0], append(append([]string{}, ae.g...), "LET "+eff+" := (Some "+ae.e+")")}
+			}
+		}
+	}
 	if name := c.oracleName(x); name != "" {
 		rs := c.oracleResults(x, name)
 		if len(rs) != 1 || rs[0] == "" {
@@ -1358,6 +1385,11 @@ func guardWrap(g []string, body string) string {
 			body = "(bind " + parts[1] + " (fun " + parts[0] + " => " + body + "))"
 			continue
 		}
+		if strings.HasPrefix(g[i], "LET ") {
+			parts := strings.SplitN(strings.TrimPrefix(g[i], "LET "), " := ", 2)
+			body = "(let " + parts[0] + " := " + parts[1] + " in " + body + ")"
+			continue
+		}
 		body = "(guard " + g[i] + " " + body + ")"
 	}
 	return body
@@ -1365,14 +1397,17 @@ func guardWrap(g []string, body string) string {
 
 func noBind(g []string, pos token.Pos) {
 	for _, x := range g {
-		if strings.HasPrefix(x, "BIND ") {
-			bad(pos, "call to a partial function on the right of && / || is not supported")
+		if strings.HasPrefix(x, "BIND ") || strings.HasPrefix(x, "LET ") {
+			bad(pos, "call to a partial function / a captured call on the right of && / || is not supported")
 		}
 	}
 }
 
 func (c *ctx) ret(vals []string) string {
 	vals = append(append([]string{}, vals...), c.outF...)
+	if len(vals) == 0 {
+		return "(RET tt)"
+	}
 	s := vals[0]
 	if len(vals) > 1 {
 		s = "(" + strings.Join(vals, ", ") + ")"
@@ -1431,7 +1466,7 @@ func (c *ctx) stmts(list []ast.Stmt) string {
 			g = merge(g, ge.g)
 			vals = append(vals, ge.e)
 		}
-		if len(vals) == 0 {
+		if len(vals) == 0 && c.results.Len() > 0 {
 			bad(x.Pos(), "bare return")
 		}
 		return guardWrap(g, c.ret(vals))
@@ -1497,6 +1532,13 @@ func (c *ctx) stmts(list []ast.Stmt) string {
 						}
 					}
 				}
+			}
+		}
+		// panic(..)
+		if call, ok := x.X.(*ast.CallExpr); ok {
+			if id, ok := call.Fun.(*ast.Ident); ok && id.Name == "panic" {
+				c.partial = true
+				return "Panic"
 			}
 		}
 		// logging has no effect on the result
@@ -2088,7 +2130,7 @@ func translate(p *packages.Package, f SpecFn, known map[string]*SpecFn, errs map
 	for i := 0; i < sig.Params().Len(); i++ {
 		addParam(sig.Params().At(i))
 	}
-	if sig.Results().Len() == 0 {
+	if sig.Results().Len() == 0 && len(f.Captures) == 0 {
 		panic(fail{"function returns nothing"})
 	}
 	var rts []string
@@ -2108,6 +2150,14 @@ func translate(p *packages.Package, f SpecFn, known map[string]*SpecFn, errs map
 		c.leaves = append(c.leaves, nm)
 		c.outF = append(c.outF, nm)
 		rts = append(rts, coqTy(parts[1]))
+	}
+	var effNames []string
+	for _, cp := range f.Captures {
+		parts := strings.SplitN(cp, ":", 2)
+		nm := "eff_" + strings.TrimPrefix(parts[0], ".") + "_" + parts[1]
+		effNames = append(effNames, nm)
+		c.outF = append(c.outF, nm)
+		rts = append(rts, "option Z")
 	}
 	bodyStmts := fd.Body.List
 	if f.Fragment != "" {
@@ -2152,6 +2202,12 @@ func translate(p *packages.Package, f SpecFn, known map[string]*SpecFn, errs map
 			panic(fail{"fragment: fallthrough needs one Coq term per result"})
 		}
 		body = strings.ReplaceAll(body, "FALLTHROUGH", c.ret(f.Fallthrough))
+	}
+	if sig.Results().Len() == 0 && strings.Contains(body, "FALLTHROUGH") {
+		body = strings.ReplaceAll(body, "FALLTHROUGH", c.ret(nil))
+	}
+	for i := len(effNames) - 1; i >= 0; i-- {
+		body = "(let " + effNames[i] + " := (@None Z) in " + body + ")"
 	}
 	if len(f.Opaque) > 0 {
 		if c.opaqueK == nil {
